@@ -216,6 +216,12 @@ def module_state(ck, fns=None, floor=120, skip_scalar=False):
             if isinstance(node, (ast.Global, ast.Nonlocal)) and isinstance(node, ast.Global):
                 ck.violation("C10.1", short(f) + ":global", where(f, node), "`global` statement on the run path: state shared "
                              "between queries", found=ast.unparse(node))
+        mk = E.memoised_with_incomplete_key(p, f)
+        if mk is not None:
+            ck.violation("C10.1", short(f) + ":memo-key", f.where,
+                         f"`{short(f)}` is memoised ({mk[0]}) but reads self.{', self.'.join(mk[1])}, which is {mk[2]}: two objects that "
+                         "differ only there are one cache key, and the later one is answered with the result computed for the earlier one",
+                         found=f"@{mk[0]} on a method reading {mk[1]}", required="every input of a memoised function is part of its key")
         for pname, dflt, mnode in E.mutated_mutable_defaults(f):
             if not E.default_is_used(ctx, f, pname):
                 continue
@@ -557,7 +563,8 @@ def id_filters(ck, rule_filter, rule_order):
                  "the molecule id is read from the grouping column", found=T.show(mid)[:100] if mid else "None",
                  required="group['CMapId']")
         pos = a.get("positions")
-        srt = pos is not None and any((x[0] == "mcall" and x[2] in ("sort_values",)) or (x[0] == "call" and x[1] == "sorted")
+        srt = pos is not None and any((x[0] == "mcall" and x[2] in ("sort_values",)) or
+                                      (x[0] == "call" and x[1] in ("sorted", "numpy.sort", "numpy.msort"))
                                       for x in T.subterms(pos))
         ck.judge(bool(srt), rule_order, "CmapReader.__parseCmapRowsGroup:sorted", where(parse, pa.node),
                  "label positions are sorted before they enter an OpticalMap (row order in the file cannot matter)",
